@@ -35,7 +35,13 @@ def view(eng, st, v):
         v = deref(eng, st, v)
     v = force(eng, st, v)
     if isinstance(v, Slice):
-        return {"base": v.base, "off": v.off, "len": v.len, "elem": v.elem, "cont": None, "ref": ref, "slice": v}
+        d = {"base": v.base, "off": v.off, "len": v.len, "elem": v.elem, "cont": None, "ref": ref, "slice": v}
+        if isinstance(v.base, tuple) and v.base[0] == "loc" and v.off == Lin.const(0):
+            # a slice covering a whole small array (e.g. `&tmp[..]` after ByteOrder::write_*): expose the array content
+            arr = eng.M.read_path(st, v.base[1], v.base[2])
+            if isinstance(arr, Arr) and v.len == Lin.const(len(arr.elems)):
+                d["arr"] = arr
+        return d
     if isinstance(v, Cont):
         register_cont(eng, v)
         return {"base": v.id, "off": Lin.const(0), "len": v.len, "elem": v.elem, "cont": v, "ref": ref}
